@@ -46,8 +46,20 @@ def spec_strategy(methods=('nla', 'chic'), max_contigs=6, max_mols=14, extras=Tr
                                'gap': draw(st.integers(0, 40)), 'r2len': draw(st.integers(20, 40)),
                                'clip': draw(st.sampled_from([0, 0, 0, 2, 5])),
                                'lane': draw(st.sampled_from([1, 1, 1, 2]))})
-            mols.append({'tid': tid, 'site': site, 'rev': draw(st.booleans()), 'cell': draw(st.integers(0, ncell - 1)),
-                         'umi': draw(st.sampled_from(pool)), 'copies': copies})
+            mol = {'tid': tid, 'site': site, 'rev': draw(st.booleans()), 'cell': draw(st.integers(0, ncell - 1)),
+                   'umi': draw(st.sampled_from(pool)), 'copies': copies}
+            if mols and draw(st.integers(0, 3)) == 0:
+                # another molecule of the same cell at the same cut (other UMI, other fragment ends): shares a hash group
+                src = mols[draw(st.integers(0, len(mols) - 1))]
+                mol.update(tid=src['tid'], site=src['site'], rev=src['rev'], cell=src['cell'])
+            elif mols and draw(st.integers(0, 3)) == 0:
+                # a molecule about half a buffer window (5000 bp) downstream of an earlier one: when it is read, only part
+                # of what is buffered around the earlier site may leave the buffer
+                src = mols[draw(st.integers(0, len(mols) - 1))]
+                far = src['site'] + 5000 + draw(st.integers(-130, 170))
+                if far < contigs[src['tid']][1] - 140:
+                    mol.update(tid=src['tid'], site=far)
+            mols.append(mol)
         ex = []
         if extras:
             kinds = ['unmapped_pair', 'unmapped_pair', 'r1_mapped_r2_unmapped', 'r1_unmapped_r2_mapped', 'orphan_r1',
